@@ -73,7 +73,7 @@ CHECKS = {
         text="Coord.tla: the coded base-26 conversions are checked by TLC against the short-lex successor characterisation for 0..20000 and the "
         "table is replayed both ways into the code; the named-range address writer/parser pair is specified and its round trip checked over all "
         "names up to the bound, each name replayed (write, serialise, parse, and code-parser on the spec-written ODF address, table rename). "
-        "CoordTrace.tla: 9 read methods x up to 5 coordinate forms, every answer compared by TLC with the answer for the abstract area.",
+        "CoordTrace.tla: 9 read methods x up to 5 coordinate forms, every answer compared by TLC with the answer for the abstract area. Also: iter_values under every form, padded new table names.",
         ref="DESIGN.md section 4 C19",
         technique="TLC-enumerated tables replayed into the code + TLC trace validation of reads under every coordinate form",
         note=TABLE_NOTE,
@@ -118,7 +118,7 @@ CHECKS = {
     "C15": dict(
         text="PackageTrace.tla op 'pure': about 1400 introspected + curated read-only entry points called twice in random order on templates, "
         "samples and generated documents; TLC requires every part identifier (content, styles, meta, settings, manifest) unchanged and the "
-        "second answer equal to the first.",
+        "second answer equal to the first. Also: every curated call on several objects of each kind, ranged reads from every start position, a generated spreadsheet parsed from bytes (outlines, non-canonical named ranges).",
         ref="DESIGN.md section 4 C15",
         technique="TLC trace validation of read-only calls (stuttering requirement on the package model)",
         note=PKG_NOTE + " Read-only classification is by name/docstring, kept in harness/pure_driver.py.",
@@ -133,34 +133,34 @@ CHECKS = {
     "C06": dict(
         text="Typed.tla: type lattice (bool is an int, datetime is a date); the isinstance dispatch chains are extracted from the working tree "
         "by AST and checked by TLC (MostSpecificFirst); TypedTrace.tla validates records of values stored in 7 carriers: value type, attribute, "
-        "ODF lexical space (recognisers of Codec.tla), read-back kind, equality direct / after re-parse / after save+reopen.",
+        "ODF lexical space (recognisers of Codec.tla), read-back kind, equality direct / after re-parse / after save+reopen. Also: the fields of meta.xml as independent typed fields (MetaStore.tla: read your writes, independence, refused values), property setters, values equal across types, UserDefined(from_document=).",
         ref="DESIGN.md section 4 C06", technique="TLC check of source-extracted dispatch chains + TLC trace validation of stored values",
         note="Trusted: TLC, Python's Decimal/repr for exact comparison of floats (TLA+ has no floating point), the AST extraction in checks/c06.py."),
     "C09": dict(
         text="Markup.tla: token model of paragraph content; transcription of the _by_regex_offset decorator, Element._insert, strip_tags, delete; "
         "MarkupMC.tla checks TextPreserved, WrapsDesignated, NoMatchNoChange, RemovalKeepsOutside for all small layouts x offsets x lengths x "
         "literal patterns x sequences of insertions; every dumped transition and random histories on API-built paragraphs are validated by "
-        "TLC (MarkupTrace.tla) against the operators and the clauses.",
+        "TLC (MarkupTrace.tla) against the operators and the clauses. Also: (start, end) and content= ranges for bookmarks, reference marks and annotations, notes, marks after an annotation, the documented pair deletions, paragraphs attached to a document; the markup calls of the repository's own tests validated through an external tracing plugin.",
         ref="DESIGN.md section 4 C09", technique="TLA+ transcription + TLC exhaustive model check, transitions replayed as traces, TLC trace validation",
         note=TEXT_NOTE + " Regex engine trusted (literal patterns); offsets count character data in document order."),
     "C12": dict(
         text="Registry.tla on RegistryData.tla generated at run time from the working tree (every register call by AST, own tags, PropDef "
         "properties): tag clashes, own-tag dispatch, duplicated properties, generic property codec; RegistryTrace.tla validates one record per "
         "instance of every registered class built with generated constructor arguments: same class after re-parse and through 6 access paths, "
-        "equal infoset (C14N), properties equal after re-parse, constructor arguments visible, property set/get.",
+        "equal infoset (C14N), properties equal after re-parse, constructor arguments visible, property set/get. Also: integer, string and element-valued constructor arguments readable through the property of their name, mixed content, the same instance read inside a document next to another one, four-sided argument groups, no answer kept from before an assignment.",
         ref="DESIGN.md section 4 C12", technique="TLC check on source-extracted registry data + TLC trace validation of generated instances",
         note="Trusted: TLC, lxml C14N, the type-directed argument generator (harness/registry_lib.py); arguments a constructor rejects are dropped."),
     "C13": dict(
         text="Styles.tla: dispatch table of insert_style, lookup order of get_style, automatic naming, merge; StylesMC.tla checks RightContainer, "
         "Unique, FoundAgain, AutoNamesFresh, MergeIsUnionOtherWins over sequences on two documents; dumped transitions replayed on real documents "
         "holding exactly the model population, random sequences on templates and samples (real populations, bursts of automatic styles, "
-        "set_table_displayed, add_page_break_style, lookups after save+reload) validated by TLC (StylesTrace.tla).",
+        "set_table_displayed, add_page_break_style, lookups after save+reload) validated by TLC (StylesTrace.tla). Also: the name given through insert_style(name=), homonyms across the containers of styles.xml, and every insert_style call of the repository's own tests.",
         ref="DESIGN.md section 4 C13", technique="TLA+ spec + TLC exhaustive model check, replay (MBT), TLC trace validation",
         note="Trusted: TLC, the independent XPath/lxml walk of the six containers (harness/styles_lib.py). Names assumed unique per family across containers."),
     "C14": dict(
         text="XPathLit.tla: the predicate literal the library builds for a name is a well-formed XPath 1.0 expression denoting exactly that name "
         "(all names over {a, space, double quote, apostrophe, &, <, [, ], e-acute} up to the bound); TLC's expression is cross-checked with "
-        "lxml's XPath engine; each name is stored with one-edit decoys through 11 setters and looked up through every entry point.",
+        "lxml's XPath engine; each name is stored with one-edit decoys through 11 setters and looked up through every entry point. Also: decoys stored before and after the target, start/end marks, annotations, links, variable sets, user-defined fields, table names through the Document-level helpers (digit-only names), the manifest's other operations.",
         ref="DESIGN.md section 4 C14", technique="TLC exhaustive enumeration of names + replay into every lookup entry point (MBT)",
         note="Trusted: TLC, lxml XPath. A setter rejecting an identifier puts it outside the quantifier."),
     "C16": dict(
@@ -172,13 +172,13 @@ CHECKS = {
     "C18": dict(
         text="Codec.tla: encoders as the library writes, parsers as the xsd/ODF lexical grammars over integers and code points; CodecMC.tla checks "
         "the inverse and lexical-form laws over boundary lattices and computes the grammar's verdict for every one-character mutant of each "
-        "duration encoding; the tables are replayed into the real codecs both ways; CodecTrace.tla validates random values.",
+        "duration encoding; the tables are replayed into the real codecs both ways; CodecTrace.tla validates random values. Also: the whole CSS keyword table against an independent copy, Unit(value, unit).",
         ref="DESIGN.md section 4 C18", technique="TLC lattice enumeration + mutant tables replayed into the code + TLC trace validation",
         note="Trusted: TLC (32-bit integers: durations up to 20000 days), Python datetime arithmetic for field extraction."),
     "C20": dict(
         text="Toc.tla: the counter machine of _header_numbering equals an independent declarative numbering for every level sequence up to the "
         "bound and every outline level; the listing rule; TLC prints the expected entries, each replayed on a real document (TOC first/middle/"
-        "last, fill once/twice/after an edit, index-body read with lxml) and against the odfdo-headers tool.",
+        "last, fill once/twice/after an edit, index-body read with lxml) and against the odfdo-headers tool. Also: headings inside sections, list items and table cells, parsed headings with Unicode blanks, the tool's complete output on the live document and after a pretty save.",
         ref="DESIGN.md section 4 C20", technique="TLC exhaustive enumeration of heading sequences + replay on real documents (MBT)",
         note="Trusted: TLC, harness/odftext.py. Outline 0 means no limit; a skipped level counts as an implicit ancestor."),
 }
